@@ -2,6 +2,7 @@ package checks
 
 import (
 	"bytes"
+	"encoding/hex"
 	"fmt"
 	"io"
 	"strconv"
@@ -14,6 +15,7 @@ import (
 	"github.com/ipld/go-ipld-prime/node/basicnode"
 	"github.com/ipld/go-ipld-prime/traversal"
 	"github.com/ipld/go-ipld-prime/traversal/selector"
+	mh "github.com/multiformats/go-multihash"
 
 	"verif/internal/core"
 )
@@ -192,6 +194,23 @@ func parseGoInt(s string) (int64, bool) {
 	return i, true
 }
 
+// c16HidingReifier presents a loaded map without its first entry and a loaded list without its first element.
+func c16HidingReifier(_ linking.LinkContext, n datamodel.Node, _ *linking.LinkSystem) (datamodel.Node, error) {
+	v, err := core.ReadNode(n)
+	if err != nil {
+		return n, nil
+	}
+	switch {
+	case v.K == '{' && len(v.M) > 0:
+		v.M = v.M[1:]
+	case v.K == '[' && len(v.L) > 0:
+		v.L = v.L[1:]
+	default:
+		return n, nil
+	}
+	return core.BuildBasic(v, nil)
+}
+
 func c16Case(c *core.Ctx, r *core.Rand, idx int, lines *[]string, impls *[]string) error {
 	g, err := core.GenGraph(r, r.Intn(5))
 	if err != nil {
@@ -228,11 +247,32 @@ func c16Case(c *core.Ctx, r *core.Rand, idx int, lines *[]string, impls *[]strin
 	// the real transform
 	written := 0
 	lsys := g.LinkSystem(nil, nil)
+	if r.Chance(1, 3) {
+		// a reifier that shows every block differently from its stored form (first entry / element hidden): the
+		// transform works on what is stored and stores what it rebuilt, so the reifier must not show in the result
+		lsys.NodeReifier = c16HidingReifier
+		c.Dist("focused:with-node-reifier")
+	}
 	lsys.StorageWriteOpener = func(linking.LinkContext) (io.Writer, linking.BlockWriteCommitter, error) {
 		var buf bytes.Buffer
 		return &buf, func(l datamodel.Link) error {
 			written++
 			cb := string(l.(cidlink.Link).Cid.Bytes())
+			// whatever link the transform stores a block under names that block: the digest is the block's hash (for an
+			// inline link: the block itself, whole)
+			if dm, err := mh.Decode(l.(cidlink.Link).Cid.Hash()); err == nil {
+				want, _ := mh.Sum(buf.Bytes(), dm.Code, -1)
+				if wd, err2 := mh.Decode(want); err2 == nil && dm.Code != mh.IDENTITY {
+					want, _ = mh.Sum(buf.Bytes(), dm.Code, dm.Length)
+					wd, _ = mh.Decode(want)
+					if !bytes.Equal(wd.Digest, dm.Digest) {
+						c.Fail("C16/stored-block-does-not-hash-to-its-link", core.Replay{Kind: "oracle", Case: "xform.focus-store " + g.StoreTokens() + " ROOT " + g.Root.Term(), Impl: hex.EncodeToString(dm.Digest), Expected: hex.EncodeToString(wd.Digest)})
+					}
+				} else if dm.Code == mh.IDENTITY && !bytes.Equal(dm.Digest, buf.Bytes()) {
+					c.Fail("C16/stored-block-does-not-hash-to-its-link", core.Replay{Kind: "oracle", Case: "xform.focus-store " + g.StoreTokens() + " ROOT " + g.Root.Term(), Impl: hex.EncodeToString(dm.Digest), Expected: hex.EncodeToString(buf.Bytes()),
+						Detail: "an inline (identity-hashed) link must carry the whole re-stored block"})
+				}
+			}
 			g.Blocks[cb] = append([]byte{}, buf.Bytes()...)
 			nb := basicnode.Prototype.Any.NewBuilder()
 			if err := dagcbor.Decode(nb, bytes.NewReader(buf.Bytes())); err != nil {
